@@ -156,7 +156,7 @@ func sessMode(args []string) {
 			j := r.Intn(i + 1)
 			cfg.order[i], cfg.order[j] = cfg.order[j], cfg.order[i]
 		}
-		cfg.drain = []int{1, 63, 64, 65, 100, 641, 1000, 4097}[r.Intn(8)]
+		cfg.drain = []int{1, 63, 64, 65, 100, 641, 1000, 4097, 300001}[r.Intn(9)]
 		j := &job{cfg: cfg}
 		jobs[idx] = j
 		wg.Add(1)
@@ -359,9 +359,16 @@ func evaluate(o *hxlib.Out, cf *hxlib.CommonFlags, cfg *sessCfg, so *sessOut) {
 		for p := 0; p < n; p++ {
 			used[p] = -1
 			s, d := so.snaps[p], so.drained[p]
-			for k := 0; k+dw <= s.Words; k++ {
+			// locate the first drained words in the snapshot, then compare the
+			// whole overlap (a large Get runs past the snapshot into batches
+			// generated later)
+			probe := dw
+			if probe > 4 {
+				probe = 4
+			}
+			for k := 0; k+probe <= s.Words; k++ {
 				m := true
-				for i := 0; i < dw && m; i++ {
+				for i := 0; i < probe && m; i++ {
 					m = s.A[k+i] == d.A[i] && s.B[k+i] == d.B[i] && s.C[k+i] == d.C[i]
 				}
 				if m {
@@ -369,8 +376,15 @@ func evaluate(o *hxlib.Out, cf *hxlib.CommonFlags, cfg *sessCfg, so *sessOut) {
 					break
 				}
 			}
-			if used[p] != need {
+			ok := used[p] == need
+			for i := 0; ok && i < dw && need+i < s.Words; i++ {
+				ok = s.A[need+i] == d.A[i] && s.B[need+i] == d.B[i] && s.C[need+i] == d.C[i]
+			}
+			if !ok {
 				o.Fail("c10-pool-lockstep", with(base, "party", p, "consumed_words", used[p], "want", need))
+			}
+			if need+dw > s.Words {
+				o.Count("get_past_snapshot_refill")
 			}
 		}
 		var us []string
